@@ -4,14 +4,14 @@ import numpy as np
 import common
 from common import cN, cZ, cnat, cbool, clist, copt, cpair
 
-PROOF_FILES = ['Proofs/Layers.v', 'Proofs/ConvT.v', 'Proofs/Conv2.v', 'Proofs/Dropout.v']
+PROOF_FILES = ['Proofs/Layers.v', 'Proofs/ConvT.v', 'Proofs/Conv2.v', 'Proofs/Dropout.v', 'Proofs/Einsum.v']
 ASSUMPTIONS = [
     'inputs and parameters are small integers held in float64, so the linear layers are exact and compared by equality; normalisation layers are compared within 1e-9 relative',
     'the reference is an independent numpy implementation of the documented formulas as direct sums (harness/c12_ref.py); the Gallina model covers Dense, 1-D Conv (all padding modes, stride, '
     'kernel dilation, groups), 1-D pooling, Embed and the statistics of the normalisation layers',
     'dtype promotion, precision, dot_general / conv_general_dilated injection and axis_name statistics are not covered',
 ]
-HEADER = 'From Coq Require Import QArith Qabs.\nFrom Flaxm Require Import Lib.Harness Model.Layers Model.Dropout.\n'
+HEADER = 'From Coq Require Import QArith Qabs.\nFrom Flaxm Require Import Lib.Harness Model.Layers Model.Dropout Model.Einsum.\n'
 
 
 def ints(rng, shape, lo=-3, hi=3):
